@@ -111,4 +111,319 @@ theorem renderInt_ne_nil (i : Int) : renderInt i ≠ [] := by
   · simp
   · exact renderNat_ne_nil _
 
+/-! ### shopspring/decimal: `NewFromString (d.String())` is `d` up to trailing zeros -/
+
+/-- big-endian value of a digit string -/
+def valBE (b : Bytes) : Nat := b.foldl (fun acc c => acc * 10 + (c.toNat - 48)) 0
+
+theorem valBE_foldl (b : Bytes) : ∀ acc : Nat,
+    b.foldl (fun acc c => acc * 10 + (c.toNat - 48)) acc = acc * 10 ^ b.length + valBE b := by
+  induction b with
+  | nil => intro acc; simp [valBE]
+  | cons c rest ih =>
+    intro acc
+    simp only [List.foldl_cons, valBE, List.length_cons]
+    rw [ih, ih (0 * 10 + (c.toNat - 48))]
+    rw [Nat.pow_succ]
+    simp only [Nat.zero_mul, Nat.zero_add, Nat.add_mul]
+    rw [Nat.mul_assoc, Nat.mul_comm 10]
+    omega
+
+theorem valBE_append (a b : Bytes) : valBE (a ++ b) = valBE a * 10 ^ b.length + valBE b := by
+  unfold valBE
+  rw [List.foldl_append, valBE_foldl]
+  rfl
+
+theorem parseNat_eq {b : Bytes} (hne : b ≠ []) (hd : b.all isDigit = true) : parseNat b = some (valBE b) := by
+  unfold parseNat
+  simp only [hne, ↓reduceIte, hd]
+  rfl
+
+theorem valBE_renderNat (n : Nat) : valBE (renderNat n) = n := by
+  have := parseNat_renderNat n
+  rw [parseNat_eq (renderNat_ne_nil n) (renderNat_all_digit n)] at this
+  exact Option.some.inj this
+
+theorem valBE_zeros (n : Nat) : valBE (List.replicate n c0) = 0 := by
+  induction n with
+  | zero => rfl
+  | succ n ih =>
+    rw [List.replicate_succ, ← List.singleton_append, valBE_append, ih]
+    simp [valBE, c0]
+
+theorem digit_ne_dot {c : UInt8} (h : isDigit c = true) : c ≠ cDot := by
+  intro hh; subst hh; revert h; decide
+
+theorem takeWhile_split (p : UInt8 → Bool) (sep : UInt8) (hs : p sep = false) (r : Bytes) :
+    ∀ a : Bytes, (∀ c ∈ a, p c = true) →
+    (a ++ sep :: r).takeWhile p = a ∧ (a ++ sep :: r).dropWhile p = sep :: r ∧
+    a.takeWhile p = a ∧ a.dropWhile p = [] := by
+  intro a
+  induction a with
+  | nil => intro _; simp [hs]
+  | cons c rest ih =>
+    intro ha
+    have hc := ha c List.mem_cons_self
+    obtain ⟨i1, i2, i3, i4⟩ := ih (fun x hx => ha x (List.mem_cons_of_mem _ hx))
+    simp only [List.cons_append, List.takeWhile_cons, List.dropWhile_cons, hc, ↓reduceIte, i1, i2, i3, i4,
+      and_self]
+
+/-- the sign handling of `Dec.parse` -/
+def signSplit (b : Bytes) : Bool × Bytes :=
+  match b with
+  | c :: rest => if c = cMinus then (true, rest) else if c = cPlus then (false, rest) else (false, b)
+  | [] => (false, [])
+
+/-- `Dec.parse` after the sign -/
+def parseBody (sign : Bool) (body : Bytes) : Option Dec :=
+  let ip := body.takeWhile (· ≠ cDot)
+  let rest := body.dropWhile (· ≠ cDot)
+  let fp := rest.drop 1
+  if fp.any (· = cDot) then none
+  else
+    match parseNat (ip ++ fp) with
+    | none => none
+    | some n => some ⟨if sign then - (n : Int) else (n : Int), fp.length⟩
+
+theorem Dec.parse_eq (b : Bytes) : Dec.parse b = parseBody (signSplit b).1 (signSplit b).2 := by
+  unfold Dec.parse signSplit parseBody
+  rfl
+
+theorem parseBody_number (sign : Bool) (ip fp' : Bytes) (h1 : ip ≠ []) (h2 : ip.all isDigit = true)
+    (h3 : fp'.all isDigit = true) :
+    parseBody sign (if fp' = [] then ip else ip ++ [cDot] ++ fp') =
+      some ⟨if sign then -(valBE (ip ++ fp') : Int) else (valBE (ip ++ fp') : Int), fp'.length⟩ := by
+  have hp : ∀ c ∈ ip, decide (c ≠ cDot) = true := by
+    intro c hc
+    have := digit_ne_dot (List.all_eq_true.1 h2 c hc)
+    simpa using this
+  have hs : decide (cDot ≠ cDot) = false := by simp
+  obtain ⟨t1, t2, t3, t4⟩ := takeWhile_split (fun x => decide (x ≠ cDot)) cDot hs fp' ip hp
+  have hany : fp'.any (fun x => decide (x = cDot)) = false := by
+    rw [List.any_eq_false]
+    intro c hc
+    have := digit_ne_dot (List.all_eq_true.1 h3 c hc)
+    simpa using this
+  unfold parseBody
+  by_cases hf : fp' = []
+  · subst hf
+    simp only [↓reduceIte, t3, t4, List.drop_nil, List.any_nil, Bool.false_eq_true, List.append_nil,
+      parseNat_eq h1 h2, List.length_nil]
+  · simp only [hf, ↓reduceIte, List.append_assoc, List.singleton_append, t1, t2, List.drop_one, List.tail_cons,
+      hany, Bool.false_eq_true]
+    have hne : ip ++ fp' ≠ [] := by simp [h1]
+    have hd : (ip ++ fp').all isDigit = true := by simp [List.all_append, h2, h3]
+    rw [parseNat_eq hne hd]
+
+/-- parsing a signed plain-notation number: integer digits `ip`, fraction digits `fp'` -/
+theorem parse_signed (neg : Bool) (ip fp' : Bytes) (h1 : ip ≠ []) (h2 : ip.all isDigit = true)
+    (h3 : fp'.all isDigit = true) :
+    Dec.parse (if neg then cMinus :: (if fp' = [] then ip else ip ++ [cDot] ++ fp')
+               else (if fp' = [] then ip else ip ++ [cDot] ++ fp')) =
+      some ⟨if neg then -(valBE (ip ++ fp') : Int) else (valBE (ip ++ fp') : Int), fp'.length⟩ := by
+  rw [Dec.parse_eq]
+  cases neg with
+  | true =>
+    simp only [↓reduceIte, signSplit]
+    exact parseBody_number true ip fp' h1 h2 h3
+  | false =>
+    simp only [Bool.false_eq_true, ↓reduceIte]
+    cases hip : ip with
+    | nil => exact absurd hip h1
+    | cons c rest =>
+      have hc : isDigit c = true := by
+        rw [hip] at h2
+        simp only [List.all_cons, Bool.and_eq_true] at h2
+        exact h2.1
+      have hm : c ≠ cMinus := by intro hh; subst hh; revert hc; decide
+      have hpl : c ≠ cPlus := by intro hh; subst hh; revert hc; decide
+      have hsp : signSplit (if fp' = [] then c :: rest else c :: rest ++ [cDot] ++ fp') =
+          (false, if fp' = [] then c :: rest else c :: rest ++ [cDot] ++ fp') := by
+        split <;> simp [signSplit, hm, hpl]
+      rw [hsp]
+      have := parseBody_number false ip fp' h1 h2 h3
+      rw [hip] at this
+      simpa using this
+
+theorem takeWhile_eq_replicate (c : UInt8) : ∀ l : Bytes,
+    l.takeWhile (fun x => decide (x = c)) = List.replicate (l.takeWhile (fun x => decide (x = c))).length c := by
+  intro l
+  induction l with
+  | nil => rfl
+  | cons a rest ih =>
+    rw [List.takeWhile_cons]
+    by_cases h : a = c
+    · subst h
+      simp only [decide_true, ↓reduceIte, List.length_cons, List.replicate_succ]
+      rw [← ih]
+    · simp [h]
+
+/-- a digit string is its trimmed part followed by zeros -/
+theorem dropTrailingZeros_spec (l : Bytes) :
+    ∃ z, l = Dec.dropTrailingZeros l ++ List.replicate z c0 := by
+  unfold Dec.dropTrailingZeros
+  refine ⟨(l.reverse.takeWhile (fun x => decide (x = c0))).length, ?_⟩
+  have h := List.takeWhile_append_dropWhile (p := fun x => decide (x = c0)) (l := l.reverse)
+  have h2 : l = (l.reverse.dropWhile (fun x => decide (x = c0))).reverse ++
+      (l.reverse.takeWhile (fun x => decide (x = c0))).reverse := by
+    rw [← List.reverse_append, h, List.reverse_reverse]
+  rw [takeWhile_eq_replicate c0 l.reverse, List.reverse_replicate] at h2
+  simpa using h2
+
+theorem all_take {l : Bytes} (h : l.all isDigit = true) (n : Nat) : (l.take n).all isDigit = true := by
+  rw [List.all_eq_true] at h ⊢
+  intro x hx; exact h x (List.mem_of_mem_take hx)
+
+theorem all_drop {l : Bytes} (h : l.all isDigit = true) (n : Nat) : (l.drop n).all isDigit = true := by
+  rw [List.all_eq_true] at h ⊢
+  intro x hx; exact h x (List.mem_of_mem_drop hx)
+
+/-- the integer and fraction digit strings `String()` splits the coefficient's digits into -/
+theorem split_spec (str : Bytes) (s : Nat) (_hne : str ≠ []) (hd : str.all isDigit = true)
+    (ipfp : Bytes × Bytes)
+    (he : ipfp = if str.length > s then (str.take (str.length - s), str.drop (str.length - s))
+      else ([c0], List.replicate (s - str.length) c0 ++ str)) :
+    ipfp.1 ≠ [] ∧ ipfp.1.all isDigit = true ∧ ipfp.2.all isDigit = true ∧ ipfp.2.length = s ∧
+    valBE (ipfp.1 ++ ipfp.2) = valBE str := by
+  by_cases h : str.length > s
+  · simp only [h, ↓reduceIte] at he
+    rw [he]
+    refine ⟨?_, all_take hd _, all_drop hd _, ?_, ?_⟩
+    · intro hc
+      have := congrArg List.length hc
+      simp at this; omega
+    · simp; omega
+    · simp only [List.take_append_drop]
+  · simp only [h, ↓reduceIte] at he
+    rw [he]
+    refine ⟨by simp, ?_, ?_, ?_, ?_⟩
+    · show [c0].all isDigit = true
+      decide
+    · show (List.replicate (s - str.length) c0 ++ str).all isDigit = true
+      rw [List.all_append, hd, Bool.and_true, List.all_eq_true]
+      intro x hx
+      rw [List.eq_of_mem_replicate hx]; decide
+    · simp; omega
+    · show valBE ([c0] ++ (List.replicate (s - str.length) c0 ++ str)) = valBE str
+      rw [← List.append_assoc, valBE_append]
+      have : [c0] ++ List.replicate (s - str.length) c0 = List.replicate (s - str.length + 1) c0 := by
+        rw [List.replicate_succ]; rfl
+      rw [this, valBE_zeros]; simp
+
+/-- the shape of `d.String()`: sign, integer digits, trimmed fraction digits `fp'`, and the `z` zeros
+that were trimmed -/
+theorem render_shape (d : Dec) : ∃ (ip fp' : Bytes) (z : Nat),
+    ip ≠ [] ∧ ip.all isDigit = true ∧ fp'.all isDigit = true ∧
+    d.render = (if decide (d.coef < 0) then cMinus :: (if fp' = [] then ip else ip ++ [cDot] ++ fp')
+                else (if fp' = [] then ip else ip ++ [cDot] ++ fp')) ∧
+    fp'.length + z = d.scale ∧ valBE (ip ++ fp') * 10 ^ z = d.coef.natAbs := by
+  by_cases hs : d.scale = 0
+  · refine ⟨renderNat d.coef.natAbs, [], 0, renderNat_ne_nil _, renderNat_all_digit _, rfl, ?_, by simp [hs], ?_⟩
+    · simp only [Dec.render, hs, ↓reduceIte, renderInt]
+      by_cases hneg : d.coef < 0 <;> simp [hneg]
+    · simp [valBE_renderNat]
+  · have hstr := split_spec (renderNat d.coef.natAbs) d.scale (renderNat_ne_nil _) (renderNat_all_digit _) _ rfl
+    generalize hipfp : (if (renderNat d.coef.natAbs).length > d.scale then
+        ((renderNat d.coef.natAbs).take ((renderNat d.coef.natAbs).length - d.scale),
+         (renderNat d.coef.natAbs).drop ((renderNat d.coef.natAbs).length - d.scale))
+      else ([c0], List.replicate (d.scale - (renderNat d.coef.natAbs).length) c0 ++ renderNat d.coef.natAbs)) = ipfp at hstr
+    obtain ⟨ip, fp⟩ := ipfp
+    obtain ⟨s1, s2, s3, s4, s5⟩ := hstr
+    obtain ⟨z, hz⟩ := dropTrailingZeros_spec fp
+    have hfp' : (Dec.dropTrailingZeros fp).all isDigit = true := by
+      rw [hz, List.all_append, Bool.and_eq_true] at s3
+      exact s3.1
+    refine ⟨ip, Dec.dropTrailingZeros fp, z, s1, s2, hfp', ?_, ?_, ?_⟩
+    · simp only [Dec.render, hs, ↓reduceIte, hipfp]
+      by_cases hneg : d.coef < 0 <;> simp [hneg]
+    · have := congrArg List.length hz
+      simp only [List.length_append, List.length_replicate] at this
+      dsimp only at s4
+      omega
+    · dsimp only at s5
+      rw [valBE_renderNat] at s5
+      rw [← s5]
+      generalize Dec.dropTrailingZeros fp = g at hz ⊢
+      rw [hz, ← List.append_assoc, valBE_append (ip ++ g), valBE_zeros]
+      simp
+
+/-- **`NewFromString(d.String())`** succeeds and gives `d` with `z ≥ 0` trailing zeros of the coefficient
+removed: the same number, at a scale that is not larger. -/
+theorem Dec.parse_render (d : Dec) : ∃ d' : Dec, Dec.parse d.render = some d' ∧ d'.scale ≤ d.scale ∧
+    d.coef = d'.coef * (10 : Int) ^ (d.scale - d'.scale) := by
+  obtain ⟨ip, fp', z, h1, h2, h3, h4, h5, h6⟩ := render_shape d
+  rw [h4, parse_signed _ ip fp' h1 h2 h3]
+  refine ⟨_, rfl, by dsimp only; omega, ?_⟩
+  dsimp only
+  have hz : d.scale - fp'.length = z := by omega
+  rw [hz]
+  have h6' : ((valBE (ip ++ fp') : Int)) * (10 : Int) ^ z = (d.coef.natAbs : Int) := by
+    have := congrArg (fun n : Nat => (n : Int)) h6
+    simpa using this
+  by_cases hneg : d.coef < 0
+  · simp only [hneg, decide_true, ↓reduceIte]
+    rw [Int.neg_mul, h6']; omega
+  · simp only [hneg, decide_false, Bool.false_eq_true, ↓reduceIte]
+    rw [h6']; omega
+
+/-! ### bigdecimal values with at most 34 decimals, as integers (value × 10^34) -/
+
+/-- the number `d` stands for, scaled by 10^34 (exact when `d.scale ≤ 34`) -/
+def Dec.val34 (d : Dec) : Int := d.coef * (10 : Int) ^ (34 - d.scale)
+
+/-- the typed value of a stored bigdecimal text with at most 34 decimals -/
+def typedDec34 (b : Bytes) : Option Int :=
+  match Dec.parse b with
+  | some d => if d.scale ≤ 34 then some d.val34 else none
+  | none => none
+
+theorem pow10_split {x y z : Nat} (hxy : x ≤ y) (hyz : y ≤ z) :
+    (10 : Int) ^ (y - x) * (10 : Int) ^ (z - y) = (10 : Int) ^ (z - x) := by
+  rw [← Int.pow_add]; congr 1; omega
+
+theorem Dec.val34_add (a b : Dec) (ha : a.scale ≤ 34) (hb : b.scale ≤ 34) :
+    (a.add b).scale ≤ 34 ∧ (a.add b).val34 = a.val34 + b.val34 := by
+  have hS : max a.scale b.scale ≤ 34 := Nat.max_le.2 ⟨ha, hb⟩
+  refine ⟨hS, ?_⟩
+  unfold Dec.val34 Dec.add Dec.rescaleUp
+  simp only
+  rw [Int.add_mul, Int.mul_assoc, Int.mul_assoc, pow10_split (Nat.le_max_left _ _) hS,
+    pow10_split (Nat.le_max_right _ _) hS]
+
+theorem Dec.cmp_gt (a b : Dec) (ha : a.scale ≤ 34) (hb : b.scale ≤ 34) :
+    a.cmp b = .gt ↔ b.val34 < a.val34 := by
+  have hS : max a.scale b.scale ≤ 34 := Nat.max_le.2 ⟨ha, hb⟩
+  unfold Dec.cmp Dec.val34 Dec.rescaleUp
+  simp only
+  rw [Int.compare_eq_gt, ← pow10_split (Nat.le_max_left a.scale b.scale) hS,
+    ← pow10_split (Nat.le_max_right a.scale b.scale) hS, ← Int.mul_assoc, ← Int.mul_assoc]
+  have hpos : (0 : Int) < (10 : Int) ^ (34 - max a.scale b.scale) := Int.pow_pos (by decide)
+  constructor
+  · intro h; exact Int.mul_lt_mul_of_pos_right h hpos
+  · intro h; exact Int.lt_of_mul_lt_mul_right h (Int.le_of_lt hpos)
+
+theorem Dec.truncate_id (d : Dec) (h : d.scale ≤ 34) : d.truncate 34 = d := by
+  unfold Dec.truncate
+  simp only [show ¬ 34 < d.scale by omega, ↓reduceIte]
+
+theorem Dec.truncate_scale (d : Dec) : (d.truncate 34).scale ≤ 34 := by
+  unfold Dec.truncate
+  split
+  · exact Nat.le_refl _
+  · omega
+
+/-- a stored text that reads as a bigdecimal with at most 34 decimals and value `i` (× 10^34) -/
+def RepDec (b : Bytes) (i : Int) : Prop := ∃ d, Dec.parse b = some d ∧ d.scale ≤ 34 ∧ d.val34 = i
+
+theorem RepDec.typed {b : Bytes} {i : Int} (h : RepDec b i) : typedDec34 b = some i := by
+  obtain ⟨d, h1, h2, h3⟩ := h
+  simp only [typedDec34, h1, h2, ↓reduceIte, h3]
+
+/-- the rendering of a decimal with at most 34 decimals reads back as the same number -/
+theorem repDec_render (d : Dec) (h : d.scale ≤ 34) : RepDec d.render d.val34 := by
+  obtain ⟨d', p1, p2, p3⟩ := Dec.parse_render d
+  refine ⟨d', p1, by omega, ?_⟩
+  unfold Dec.val34
+  rw [p3, Int.mul_assoc, pow10_split p2 h]
+
 end SV
